@@ -409,6 +409,50 @@ def emu_spec(pid, level, rule, profile, checker_factory, **kw):
     return runner.CheckSpec(pid=pid, level=level, rule=rule, run_one=run_one, replay_fn=replay_fn, minimise_fn=minimise_fn, components=comps, known_matchers=known.MATCHERS, **kw)
 
 
+def v2_spec(pid, level, rule, profile, **kw):
+    from . import emu2
+
+    def run_one(seed, run):
+        return runner.result_to_dict(emu2.run_v2(pid, seed, run, profile), keep_trace=True)
+
+    def _replay(doc):
+        return emu2.run_v2(pid, doc.get("seed", 0), doc.get("run", 0), profile, doc=doc)
+
+    def replay_fn(doc):
+        return [v.to_json() for v in _replay(doc).violations]
+
+    def minimise_fn(doc):
+        want = doc["expected"]["oracle"]
+
+        def test(sub, cfg=None):
+            w = doc["world"] if cfg is None else dict(doc["world"], v2_config=cfg)
+            try:
+                return any(v.oracle == want for v in _replay(dict(doc, world=w, trace=sub)).violations)
+            except Exception:  # noqa: BLE001
+                return False
+
+        if not test(doc["trace"]):
+            return doc
+        small = runner.ddmin(list(doc["trace"]), test, budget=60)
+        cfg = doc["world"]["v2_config"]
+        obs = runner.ddmin(list(cfg["observables"][1:]), lambda sub: test(small, dict(cfg, observables=cfg["observables"][:1] + sub)), budget=40)
+        cfg2 = dict(cfg, observables=cfg["observables"][:1] + obs)
+        if not test(small, cfg2):
+            cfg2 = cfg
+        out = dict(doc, world=dict(doc["world"], v2_config=cfg2), trace=small, original_length=len(doc["trace"]))
+        res = _replay(out)
+        v = [x for x in res.violations if x.oracle == want][0]
+        out["expected"] = {"oracle": want, "msg": v.msg, "step": v.step}
+        return out
+
+    comps = {
+        "real": ["pulser_simulation.QutipBackendV2 / QutipConfig / QutipState / QutipOperator / QutipEmulator (legacy twin), pulser.backend observables and Results, QuTiP solvers"],
+        "model_or_stub": ["numpy recomputation of every observable from the stored state (simlib/emu2.py)", "owned numpy RNG stream and counter-derived uuid4"],
+        "not_exercised": ["remote backends", "torch"],
+    }
+    return runner.CheckSpec(pid=pid, level=level, rule=rule, run_one=run_one, replay_fn=replay_fn, minimise_fn=minimise_fn, components=comps, known_matchers=known.MATCHERS, **kw)
+
+
 def combine(pid, a, b, every=3, **kw):
     """One check made of two engines: run index % every == every-1 goes to b."""
 
@@ -437,6 +481,25 @@ def combine(pid, a, b, every=3, **kw):
 
 def _build2():
     from . import emu
+
+    _REG["C20"] = v2_spec(
+        "C20",
+        "exploration",
+        "EMU-SIM V2 runs: a generated program (1-3 atoms, 2- and 3-level bases) + a generated QutipConfig (every default observable, several instances with tag suffixes, per-observable and default evaluation-time sets incl. 0, 1 and 'Full', sampling rates, initial state from amplitudes, noise models incl. dissipative => density matrices and stochastic => averaged density matrices) with StateResult always included; every stored value is recomputed with numpy from the stored state and the Hamiltonian at that time; result bookkeeping (one value per requested time, ascending, retrieval by observable/tag/attribute) and operator/state algebra on the run's objects are checked; non-trivial = mixed state or 3-level basis or >=2 interior evaluation times; distinct = distinct (register, program, configuration)",
+        {"xy_p": 0.2, "n_max": 3, "bw_bias": 0.2, "only_prefix": "C20", "prog_len": 10},
+        runs={"quick": 800, "thorough": 20000},
+        assumptions=["the Hamiltonian used for energy observables is read from the emulator (its correctness is C05's business)", "BitStrings are judged by per-atom marginals at 6 sigma under the owned RNG"],
+        expected_probes=["mixed_state_values", "three_level_values", "operator_construction_checked", "algebra_checked", "own_times_also_evaluated_at_default_times"],
+    )
+    _REG["C11"] = v2_spec(
+        "C11",
+        "exploration",
+        "EMU-SIM: same generated programs and configurations as C20, judged for physicality (norm / trace / Hermiticity / positivity of every stored state), purity without noise, and legacy == V2 (same accept/refuse class at construction, same states at the same times for non-stochastic configurations) for every duration, basis, idle period, evaluation-time set and sampling rate generated; non-trivial as C20",
+        {"xy_p": 0.2, "n_max": 3, "bw_bias": 0.2, "only_prefix": "C11", "prog_len": 10},
+        runs={"quick": 800, "thorough": 20000},
+        assumptions=["solver tolerances: states compared at 1e-7 (legacy and V2 share the solver)", "analytic Rabi / zero-drive / bit-order scenarios are part of the thorough tier when built"],
+        expected_probes=["legacy_v2_compared", "mixed_state_values", "three_level_values"],
+    )
 
     _c18_reg()
     _REG["C05"] = emu_spec(
